@@ -380,9 +380,20 @@ def encap_cfg(facts, out_buffer_root=None, extra=None):
             return
         w.mem[('G', 'writes')] = ('agg', cur[1] + (('agg', (('int', start), ('int', ln))),))
 
-    cfg = {'kslots': 2, 'call_hooks': {GEN_HDR: on_header}, 'write_hook': on_write, '_holder': holder}
+    def after_header(I, w, frame, site, args, rv):
+        w.mem[('G', 'hdr_val')] = rv
+
+    def after_crc(I, w, frame, site, args, rv):
+        w.mem[('G', 'crc_val')] = rv
+
+    cfg = {'kslots': 2, 'call_hooks': {GEN_HDR: on_header}, 'write_hook': on_write, '_holder': holder,
+           'ret_hooks': {GEN_HDR: after_header, 'crc::CrcCalculator::calculate_crc32': after_crc}}
     if extra:
-        cfg.update(extra)
+        for k, v in extra.items():
+            if k in ('call_hooks', 'ret_hooks'):
+                cfg[k].update(v)
+            else:
+                cfg[k] = v
     return cfg
 
 
@@ -449,3 +460,118 @@ def _mentions_origin(v, name):
     if t == 'bool':
         return True
     return False
+
+
+# ---------------------------------------------------------------------- layout tables
+PKT = 'pkt_type::PktType'
+
+
+def hdr_partition(facts, W):
+    """(packet kind name, label type name) recorded by the generate_gse_header hook in world W"""
+    k, l = ghost(W, 'hdr_kind'), ghost(W, 'hdr_lt')
+    if k is None or l is None or k[0] != 'enum' or l[0] != 'enum' or len(k[1]) != 1 or len(l[1]) != 1:
+        return None
+    return (facts.variant_name(PKT, k[1][0][0]), facts.variant_name('label::LabelType', l[1][0][0]))
+
+
+def writer_env(ck, a, wname):
+    """symbolic names of the inputs of a writer"""
+    f = ck.facts
+    env = {'P': a.arg('pdu')[3], 'pdu_root': a.arg('pdu')[1].root, 'B': a.arg('buffer')[3], 'buf_root': a.arg('buffer')[1].root}
+    if wname in ('encap', 'encap_ext'):
+        md = a.arg('metadata')
+        env['ptype'] = md[1][field_index(f, 'gse_encap::EncapMetadata', 'protocol_type')][1]
+        env['frag_id'] = a.arg('frag_id')[1]
+        env['label_local'] = [i for i, n in a.body.local_names.items() if n == 'label'][0]
+    else:
+        ctx = a.I.read(a.w0, a.arg('context')[1])
+        env['frag_id'] = ctx[1][field_index(f, 'gse_encap::ContextFrag', 'frag_id')][1]
+        env['crc'] = ctx[1][field_index(f, 'gse_encap::ContextFrag', 'crc')][1]
+        env['c'] = ctx[1][field_index(f, 'gse_encap::ContextFrag', 'len_pdu_frag')][1]
+    env['root_fid'] = [fid for fid, fr in a.I.frames.items() if fr.body is a.body and fr.ctx == ()][0]
+    return env
+
+
+def describe_src(a, env, W, src, L):
+    """classify the provenance of written bytes against the inputs of the writer"""
+    def eq(x, y):
+        return W.store.entails_eq(x, y)
+    if src[0] == 'value':
+        v = src[1]
+        if v[0] == 'int' and eq(v[1], env['frag_id']):
+            return ('frag_id',)
+        return ('value?', str(v))
+    if src[0] == 'arr':
+        content = src[1]
+        base = src[4] if len(src) > 4 else None
+        if content[0] == 'be':
+            X, n = content[1], content[2]
+            hv = ghost(W, 'hdr_val')
+            if hv is not None and hv[0] == 'int' and X == hv[1] and n == 2:
+                return ('header',)
+            if n == 1 and eq(X, env['frag_id']):
+                return ('frag_id',)
+            if n == 2 and 'ptype' in env and eq(X, env['ptype']):
+                return ('ptype',)
+            if n == 2 and L is not None and eq(X, env['P'] + 2 + L):
+                return ('total_len',)
+            cv = ghost(W, 'crc_val')
+            if n == 4 and ((cv is not None and cv[0] == 'int' and X == cv[1]) or ('crc' in env and eq(X, env['crc']))):
+                return ('crc',)
+            return ('be?', X.pretty(), n)
+        if base is not None and base.root == ('L', env['root_fid'], env.get('label_local', -1)):
+            return ('label',)
+        if content[0] == 'elems' and not content[1]:
+            return ('label',)        # the empty byte string returned by get_bytes for Broadcast / ReUse
+        return ('arr?', str(content)[:80])
+    if src[0] == 'seq':
+        base, st, ln = src[1], src[2], src[3]
+        if base.root == env['pdu_root'] and not base.path:
+            return ('pdu', st, ln)
+        return ('seq?', str(base))
+    return ('?', str(src)[:80])
+
+
+def writer_rows(ck, a, wname):
+    """rows (partition, start, len, descriptor, world, site) of every write into the output buffer"""
+    env = writer_env(ck, a, wname)
+    rows = []
+    for r in a.records:
+        if r.kind != 'event':
+            continue
+        if r.data[0] == 'write':
+            _, base, start, ln, src = r.data[:5]
+            W = r.data[6]
+        elif r.data[0] == 'store' and r.data[1].path and r.data[1].path[-1][0] == 'i':
+            loc = r.data[1]
+            base, start, ln, src = Loc(loc.root, loc.path[:-1]), loc.path[-1][1], Lin.c(1), ('value', r.data[2])
+            W = r.data[4]
+        else:
+            continue
+        if base.root != env['buf_root'] or base.path:
+            continue
+        part = hdr_partition(ck.facts, W)
+        L = Lin.c(LABEL_LEN[part[1]]) if part else None
+        rows.append({'part': part, 'start': start, 'len': ln, 'src': describe_src(a, env, W, src, L), 'W': W, 'site': r.site})
+    return env, rows
+
+
+# independent reading of ETSI TS 102 606 (clause 4.2): field order and sizes per packet kind.
+# offsets are functions of the label length L; `n` is the payload carried by the packet.
+def spec_fields(kind, L):
+    if kind == 'CompletePkt':
+        return [('header', 0, 2), ('ptype', 2, 2), ('label', 4, L), ('pdu', 4 + L, None)]
+    if kind == 'FirstFragPkt':
+        return [('header', 0, 2), ('frag_id', 2, 1), ('total_len', 3, 2), ('ptype', 5, 2), ('label', 7, L), ('pdu', 7 + L, None)]
+    if kind == 'IntermediateFragPkt':
+        return [('header', 0, 2), ('frag_id', 2, 1), ('pdu', 3, None)]
+    if kind == 'EndFragPkt':
+        return [('header', 0, 2), ('frag_id', 2, 1), ('pdu', 3, None), ('crc', None, 4)]
+    raise KeyError(kind)
+
+
+STATUS_OF_KIND = {'CompletePkt': 'CompletedPkt', 'FirstFragPkt': 'FragmentedPkt', 'IntermediateFragPkt': 'FragmentedPkt', 'EndFragPkt': 'CompletedPkt'}
+
+
+def has_trunc(lin_):
+    return any(isinstance(ATOMS.info(a).defn, tuple) and ATOMS.info(a).defn and ATOMS.info(a).defn[0] == 'trunc' for a in lin_.atoms())
